@@ -76,6 +76,19 @@ CLAIMS = {
             "returns a debug-only panic (no reachable overflow, failing debug_assert or over-wide shift) - C17_profile_independent, "
             "C17_invalid_panics, C17_valid_ok, for all n. Both build profiles of the real crate are run on the out-of-range grid and on a "
             "valid workload on every run and compared with the model line by line.", "section 6 C17"),
+    "C18": ("PARTIAL (proof of volute's own logic + hypothesis on the numerical solver). Proved for every list of well-formed "
+            "functions over n <= 31 variables and all costs >= 1 (no i32 overflow), for optimize_sop_mip, optimize_esop_mip and "
+            "optimize_sopes_mip: the 0-1 programme built by the modeler is ADEQUATE - every feasible point decodes to a valid "
+            "two-level form whose cost (AND/XOR gates of the distinct cubes + one OR/XOR per extra cube per output) is at most the "
+            "objective (decode_sound, no solver hypothesis), and every valid form has a feasible point of the same (SOPES: no greater) "
+            "objective (encode_complete); whatever the solver returns, an Ok result denotes the functions (valid); and IF the solver "
+            "returns an optimal feasible point of the one programme it is given (solver_optimal_on, shown satisfiable on concrete "
+            "instances) THEN the call returns Ok and the returned forms have minimum cost over all valid forms. NOT provable: that "
+            "HiGHS/good_lp meets that hypothesis (floating point, tolerances). Tie on every run: the programme the Rust code hands "
+            "to the solver (hook) is compared constraint by constraint with the model's programme; the forms returned by the real "
+            "solver are checked by extracted checkers for validity and against exact optima computed independently (shared-term "
+            "enumeration n <= 2, shortest paths for single outputs up to n = 4, product of covers for sparse multi-output n = 3, 4).",
+            "section 6 C18"),
     "C19": ("PARTIAL (proof of everything that is logic + statistical monitoring of the generator). Proved for an arbitrary generator "
             "output stream: the result is well formed, table bit m is exactly bit m mod 64 of generator word m / 64 (distinct assignments "
             "read distinct generator bits), masking is a uniform projection (bijection word <-> (kept bits, dropped bits)), every "
@@ -102,7 +115,7 @@ CLAIMS = {
             "bytes themselves are tied to the Rust Display impls by the byte-exact transcript replay.", "section 6 C16"),
 }
 
-hooks_commits = ["cd46dcb", "06c2400"]
+hooks_commits = ["cd46dcb", "06c2400", "4f0c900"]
 checks = []
 for p in props:
     pid = p["id"]
@@ -123,7 +136,7 @@ m = {
     "version": 1,
     "setup_cmd": "./setup.sh",
     "hooks": {"guard": "volute_verif",
-              "enable": "RUSTFLAGS=\"--cfg volute_verif\" (cfg flag; src/verif.rs and one accessor at the end of canonization.rs)",
+              "enable": "RUSTFLAGS=\"--cfg volute_verif\" (cfg flag; src/verif.rs, one accessor at the end of canonization.rs, one recording call at the top of the two solve() functions of sop/optim/mip.rs)",
               "baseline_off_cmd": "cd /repo && cargo test --workspace --no-fail-fast --offline",
               "source_commits": hooks_commits, "add_only": True},
     "engines": [{"name": "coq-model", "path": "coq/", "serves_properties": sorted(CLAIMS),
